@@ -170,18 +170,16 @@ func compileMapKey(typ *runtime.Type, structName, fieldName string, structTypeTo
 	if err != nil {
 		return nil, err
 	}
-	for {
-		switch t := dec.(type) {
-		case *stringDecoder, *interfaceDecoder:
-			return dec, nil
-		case *boolDecoder, *intDecoder, *uintDecoder, *numberDecoder:
-			return newWrappedStringDecoder(typ, dec, structName, fieldName), nil
-		case *ptrDecoder:
-			dec = t.dec
-		default:
-			return newInvalidDecoder(typ, structName, fieldName), nil
-		}
+	switch dec.(type) {
+	case *stringDecoder, *interfaceDecoder:
+		return dec, nil
+	case *boolDecoder, *intDecoder, *uintDecoder, *numberDecoder:
+		return newWrappedStringDecoder(typ, dec, structName, fieldName), nil
 	}
+	// Anything else, pointers included, is not a map key kind a JSON object can be decoded
+	// into (as in encoding/json). Running a pointer's element decoder on the key slot
+	// would store the number, or a pointer into the key text, as the pointer itself.
+	return newInvalidDecoder(typ, structName, fieldName), nil
 }
 
 func compilePtr(typ *runtime.Type, structName, fieldName string, structTypeToDecoder map[uintptr]Decoder) (Decoder, error) {
